@@ -232,7 +232,21 @@ def _sty_sets(ck, prog):
 def _effects(ck, prog):
     E = Effects(prog, cut=CONDITIONAL_CALLEES)
     s = E.of(SEQ, "Sequence.setPhosPhoSites")
-    ck.ob("EFF", SEQ_PATH + ":Sequence.setPhosPhoSites", {k: sorted(v) for k, v in s.self_writes.items()} == {"phosphosites": ["mutate"]},
+    # emptying a one-slot result cache (`self.F = None`, F a slot MEMO-KEY knows) is invalidation, not a write of the phosphosite data: whether
+    # the cache is emptied everywhere it has to be is MEMO-KEY's verdict, not this rule's
+    from lcsa import memo as _memo
+    slot_names = {st.table.split("__")[-1] for st in _memo.find_slot_sites(prog)}
+
+    def _only_invalidation(fi, fld):
+        if fld.split("__")[-1] not in slot_names:
+            return False
+        ws = [n for n in ast.walk(fi.node) if isinstance(n, (ast.Assign, ast.AugAssign, ast.Delete))
+              and any(is_self_attr(x, fld) or (isinstance(x, ast.Attribute) and is_self_attr(x) and x.attr.split("__")[-1] == fld.split("__")[-1])
+                      for t in (n.targets if not isinstance(n, ast.AugAssign) else [n.target]) for x in ast.walk(t))]
+        return bool(ws) and all(isinstance(n, ast.Assign) and isinstance(n.value, ast.Constant) and n.value.value is None for n in ws)
+    f0 = prog.fn(SEQ, "Sequence.setPhosPhoSites")
+    w_set = {k: sorted(v) for k, v in s.self_writes.items() if not (v == {"rebind"} and _only_invalidation(f0, k))}
+    ck.ob("EFF", SEQ_PATH + ":Sequence.setPhosPhoSites", w_set == {"phosphosites": ["mutate"]},
           expected={"phosphosites": ["mutate"]}, found={k: sorted(v) for k, v in s.self_writes.items()}, slot="writes",
           note="append-only on the phosphosite list; the stored sequence is never touched")
     f = prog.fn(SEQ, "Sequence.setPhosPhoSites")
@@ -243,8 +257,10 @@ def _effects(ck, prog):
           slot="argument")
     c = E.of(SEQ, "Sequence.clear_phosphosites")
     g = prog.fn(SEQ, "Sequence.clear_phosphosites")
-    asg = [n for n in ast.walk(g.node) if isinstance(n, ast.Assign)]
-    ok = {k: sorted(v) for k, v in c.self_writes.items()} == {"phosphosites": ["rebind"]} and len(asg) == 1 and unparse(asg[0].value) in ("[]", "list()")
+    asg = [n for n in ast.walk(g.node) if isinstance(n, ast.Assign) and not (len(n.targets) == 1 and is_self_attr(n.targets[0]) and n.targets[0].attr != "phosphosites"
+                                                                           and _only_invalidation(g, n.targets[0].attr))]
+    ok = {k: sorted(v) for k, v in c.self_writes.items() if not (v == {"rebind"} and _only_invalidation(g, k))} == {"phosphosites": ["rebind"]} \
+        and len(asg) == 1 and unparse(asg[0].value) in ("[]", "list()")
     ck.ob("EFF", SEQ_PATH + ":Sequence.clear_phosphosites", ok, expected="self.phosphosites = []  and nothing else", found=unparse(g.node.body[-1]), slot="clear",
           where=g.loc())
     STATE = {"phosphosites", "seq", "len", "chargePattern"}
